@@ -12,7 +12,26 @@ def run(tier, seed, replay=None):
         cases = [json.load(open(replay))["case_line"]]
         mc_stats = {"distinct": 0, "generated": 0}
     else:
-        cases, mc_stats, _ = vlib.run_mc("MC_C08.tla", "C08_%s.cfg" % tier, "C08", workers=4, timeout=3000)
+        cases, mc_stats, _ = vlib.run_mc("MC_C08.tla", "C08_quick.cfg", "C08", workers=4, timeout=3000)
+        if tier == "thorough":
+            # the exhaustive space of longer names is out of reach of rustc (413 064 generated modules for
+            # MaxLen 3 / PairLen 2): behaviours of the same machine with MaxLen 4 / PairLen 3 under
+            # `tlc -simulate`, seeded by VERIF_SEED, every state of a behaviour being a case
+            seen = set(json.dumps(c, sort_keys=True) for c in cases)
+            sim, st = [], {"behaviours": 0, "seeds": []}
+            for k in range(4):
+                cs, st1, _ = vlib.run_mc("MC_C08.tla", "C08_sim.cfg", "C08.sim%d" % k, workers=1, timeout=3000,
+                                         simulate="num=700", seed=seed * 1000 + k, heap="-Xmx3g")
+                sim += cs
+                st["behaviours"] += 700
+                st["seeds"].append(seed * 1000 + k)
+            for c in sim:
+                key = json.dumps(c, sort_keys=True)
+                if key not in seen:
+                    seen.add(key)
+                    cases.append(c)
+            st["cases_added"] = len(cases) - int(mc_stats.get("distinct", 0))
+            mc_stats["simulated"] = st
     events, gst = vlib.run_gen_pipeline("C08", "deser", cases, nshards=14, timeout=6000)
     bad, tstats = vlib.run_trace("Trace_C08.tla", "Trace_C08.cfg", events, "C08", shards=10, timeout=3000)
 
